@@ -53,7 +53,10 @@ func editTree(t *rapid.T, v V, depth int, cfg TreeCfg) (V, string) {
 		if len(v.L) > 0 && drawInt(t, 0, 9, "descend") < 6 {
 			i := drawIdx(t, len(v.L), "child")
 			if len(v.L) > 20 && drawBool(t, "tail") {
-				i = len(v.L) - 1 - drawInt(t, 0, 3, "fromend") // long lists: edit near the end
+				// long lists: edit near the end, in the exact middle or next to it, or at the start - the places
+				// a comparison that walks in blocks or from both ends is most likely to skip
+				n := len(v.L)
+				i = []int{n - 1, n - 2, n - 3, n - 4, n / 2, n/2 - 1, n/2 + 1, (n - 1) / 2, n / 2, 0, 1}[drawIdx(t, 11, "farwhere")]
 			}
 			out := v.Clone()
 			e, what := editTree(t, v.L[i], depth+1, cfg)
